@@ -170,6 +170,9 @@ func c02Worker(w *core.WorkerCtx) {
 	if w.Batch == 0 {
 		c02Witness(w)
 	}
+	if w.Batch == 5 || (w.Thorough() && w.Batch%20 == 5) {
+		c02OneSpendTwoNodes(w)
+	}
 	n := w.Pick(10, 50)
 	// (a) single node, sequential: the ledger is a single chain, conservation must hold strictly
 	runRandomScenarios(w, []string{"C02"}, n, func(p *ledger.Profile) {
@@ -265,6 +268,12 @@ func c06Notary(w *core.WorkerCtx) {
 		ask(a)
 		ask(b)
 		time.Sleep(2 * time.Millisecond) // the node stores the memorised answer in a goroutine
+		if i%2 == 1 {
+			// as after half a minute without a request: the request throttle (20 s) has forgotten both wallets, the
+			// memorised balances (5 min) are still there
+			rig.Flash.RemoveAddress(a.Addr)
+			rig.Flash.RemoveAddress(b.Addr)
+		}
 		var opErr error
 		switch kind {
 		case "transfer":
@@ -462,4 +471,71 @@ func init() {
 		Worker: c06Worker,
 	})
 	_ = fmt.Sprint
+}
+
+// c02OneSpendTwoNodes: an honest client hands ONE transaction, which spends all its wallet holds, to two nodes at the
+// same moment. Each seals it; the vertex of the first node reaches the second while that one is sealing its own copy
+// (the gossiped vertex has passed the look-ups made before the ledger lock and is still being verified). Whatever the
+// order inside the second node, the spend may be confirmed there once; the wallet received X and must not have spent 2X.
+func c02OneSpendTwoNodes(w *core.WorkerCtx) {
+	rng := core.Rand(w.Seed, "C02twonodes", w.Batch)
+	desc := fmt.Sprintf("c02 one spend sealed at two nodes at once seed=%d batch=%d", w.Seed, w.Batch)
+	w.Mark("%s", desc)
+	for round := 0; round < w.Pick(8, 30); round++ {
+		world := ledger.NewWorld(rng, w.R, []string{"C02"}, allSnapOracles, desc)
+		world.SlowRepeat = 4 * time.Millisecond
+		if _, err := ledger.Setup(world, ledger.Profile{Nodes: 2, Users: 4, SupplyClass: 0, Delivery: "lockstep"}); err != nil {
+			w.R.Inconc("setup failed: " + err.Error())
+			world.Close()
+			return
+		}
+		b, c := world.Nodes[0], world.Nodes[1]
+		u := world.Users
+		amt := spice.Melange{Currency: uint64(1 + rng.Intn(1000)), SupplementaryCurrency: uint64(rng.Intn(1000))}
+		ft := world.NewTrx(u[0], u[1].Addr, amt, nil)
+		fv, err := world.Propose(b, &ft, "fund")
+		if err != nil || world.Deliver(c, &fv, "fund") != nil {
+			world.Close()
+			continue
+		}
+		t := world.NewTrx(u[1], u[2].Addr, amt, nil)
+		vb, err := world.Propose(b, &t, "the spend sealed by the first node")
+		if err != nil {
+			world.Close()
+			continue
+		}
+		world.SlowAlways(vb.Hash)
+		gap := time.Duration(100+rng.Intn(900)) * time.Microsecond
+		sealFirst := round%4 == 3 // now and then the other way round: the node seals first, the gossip arrives right after
+		var errGossip, errSeal error
+		world.Concurrent(c, []func(){
+			func() {
+				if sealFirst {
+					time.Sleep(gap)
+				}
+				errGossip = c.Book.AddLeaf(world.Ctx, ledger.CloneVertex(&vb))
+			},
+			func() {
+				if !sealFirst {
+					time.Sleep(gap)
+				}
+				tt := t
+				va, err := c.Book.CreateLeaf(world.Ctx, &tt)
+				errSeal = err
+				if err == nil {
+					world.Hist.Add(&va)
+				}
+			},
+		})
+		world.Observe(c, ledger.OpInfo{Kind: "concurrent", OK: true})
+		// the next vertex takes what tips there are as its parents
+		for k := 0; k < 2; k++ {
+			m := world.NewTrx(u[0], u[3].Addr, spice.Melange{}, []byte(fmt.Sprintf("next %d", k)))
+			world.Propose(c, &m, "next vertex")
+		}
+		world.CheckConservation(c)
+		w.R.Count("c02_one_spend_handed_to_two_nodes_at_once", 1)
+		world.NontrivFor("C02", fmt.Sprintf("one-spend-two-nodes/gossip-admitted=%v/sealed=%v/seal-first=%v", errGossip == nil, errSeal == nil, sealFirst))
+		world.Close()
+	}
 }
